@@ -61,6 +61,9 @@ def _case(rng, fam, gseed, cfgd):
     r = rng.random()
     if r < 0.08:
         case["x0"] = "none"
+    # any scipy.sparse format may come back from a user's callback
+    if rng.random() < 0.25:
+        case["fmt"] = str(rng.choice(["dia", "bsr", "lil", "dok"]))
     return case
 
 
@@ -130,6 +133,7 @@ def run_case(case):
     for ax in ("newton", "step_solver", "linear", "control", "penalty", "active", "scaling"):
         res["ctr"]["%s_%s" % (ax, c[ax])] = 1
     res["ctr"]["log_" + case.get("log", "CRITICAL")] = 1
+    res["ctr"]["fmt_" + p.fmt] = 1
     if case["cfg"].get("report_rcond"):
         res["ctr"]["report_rcond_on"] = 1
     ntrials = len(out.trace.trials)
@@ -145,13 +149,13 @@ def finalize(agg, tier):
     return {
         "rule": "problem families QP/NLP/degenerate/nonconvex-singular/unbounded/infeasible x (two passes over a pairwise "
                 "covering array of Newton type, step solver, linear solver, step control, penalty policy, active-set rule, "
-                "scaling + uniformly random configurations) x reporting options (report_rcond, collect_path, log level "
+                "scaling + uniformly random configurations) x sparse format of the callbacks (COO/CSR/CSC, 25% DIA/BSR/LIL/DOK) x reporting options (report_rcond, collect_path, log level "
                 "CRITICAL/INFO/DEBUG with a formatting handler, display interval 0/0.1) x lamb_max 1e1..1e4, rho, lamb_init, "
                 "random multiplier starts up to 1e4, x0=None; non-trivial = the solve computed at least two trial steps; "
                 "distinct by spec seed",
         "floors": {"outcome_status:Optimal": 200, "log_DEBUG": 100, "report_rcond_on": 100,
                    "outcome_raise:lamb_max": 5, "newton_Globalized": 50, "linear_MINRES": 10,
-                   "penalty_LagrangianFilter": 50, "family_NCVX": 50},
+                   "penalty_LagrangianFilter": 50, "family_NCVX": 50, "fmt_dia": 20, "fmt_bsr": 20},
         "assumptions": ["exceptions raised while constructing the Solver (scaling computation) are counted, not judged: "
                         "the property speaks about solve()",
                         "deliberate failures are recognised by type Exception and message prefix, DerivError by type"],
